@@ -338,6 +338,25 @@ func execStore(t *testing.T, sc *ConcScenario, choose chooser) *execResult {
 		return res
 	}
 	s.releaseAll()
+	if sc.Extra["fsckOnly"] == true {
+		// C07 under engine A: only the files' mutual consistency at
+		// quiescence is this run's business
+		res.outcome = "fsck"
+		if err := w.S.Flush(); err == nil {
+			if v := w.FsckOpen(); v != nil {
+				res.viol = v
+			} else if err := w.Close(); err == nil {
+				if v := w.FsckClosed(); v != nil {
+					res.viol = v
+				}
+			}
+		}
+		func() {
+			defer func() { recover() }()
+			w.Close()
+		}()
+		return res
+	}
 	// oracles
 	var sb strings.Builder
 	for _, r := range recs {
@@ -1372,4 +1391,21 @@ func c13ConcScenarios(tier string) []*ConcScenario {
 		}
 	}
 	return scs
+}
+
+
+// c07ConcScenarios: the C06 scenario set with one preemption less and fsck as
+// the only oracle (C07: "every quiescent state reachable in the explorations
+// of C01-C06").
+func c07ConcScenarios(tier string) []*ConcScenario {
+	var out []*ConcScenario
+	for _, sc := range c06Scenarios(tier) {
+		c := *sc
+		c.Prop = "C07"
+		c.Bound = sc.Bound - 1
+		c.Name = "c07/" + sc.Name
+		c.Extra = map[string]any{"fsckOnly": true}
+		out = append(out, &c)
+	}
+	return out
 }
